@@ -138,7 +138,7 @@ func propEmit(c EmitCase) (o pbt.Outcome) {
 		return
 	}
 	res := e2e.RunTransfer(env, c.Progs, e2e.TransferOpts{Salt: c.Salt, StallAfter: 40 * time.Second, MaxWall: 90 * time.Second})
-	env.Stop()
+	env.StopBounded(3 * time.Second)
 	tEnd := time.Now()
 	o.Obs = res
 	user := c.Cfg.Users[c.Cfg.ClientUser].Name
